@@ -82,6 +82,30 @@ extern unsigned g_sockopt_calls;
 extern int g_sockopt_err;		/* SO_ERROR value delivered by the last getsockopt */
 extern unsigned g_setsockopt_calls;
 
+/* ---------------------------------------------------------------------------------------------------------
+ * Network layer as seen by netbuf (models/net_netapi.c): the pending read / write request of one connection.
+ */
+struct network_ssl_ctx;
+struct net_rq {
+	int active;			/* a request is PENDING */
+	int fd;
+	void * ssl;			/* non-NULL: started through the SSL variant */
+	const uint8_t * buf;
+	size_t buflen;
+	size_t minlen;
+	int (* callback)(void *, ssize_t);
+	void * cookie;
+	unsigned nstart;		/* requests started */
+	unsigned nfail;			/* failed attempts to start one */
+	unsigned ncancel;		/* requests cancelled */
+};
+extern struct net_rq g_nrd, g_nwr;
+extern char g_nrd_handle[1], g_nwr_handle[1];
+void * h_ssl_read(struct network_ssl_ctx *, uint8_t *, size_t, size_t, int (*)(void *, ssize_t), void *);
+void h_ssl_read_cancel(void *);
+void * h_ssl_write(struct network_ssl_ctx *, const uint8_t *, size_t, size_t, int (*)(void *, ssize_t), void *);
+void h_ssl_write_cancel(void *);
+
 /* atexit */
 extern unsigned g_atexit_calls;
 extern void (* g_atexit_func)(void);
